@@ -107,6 +107,17 @@ func (o *Out) known(tag, example string) {
 	o.Stats["known:"+tag]++
 }
 
+// checkpoint writes what has been gathered so far (a child that may crash calls it as it goes)
+func (o *Out) checkpoint() {
+	o.w.Flush()
+	st := map[string]interface{}{
+		"stats": o.Stats, "hist": o.Hist, "samples": o.Samples, "distinct": o.Distinct,
+		"notes": o.Notes, "violations": o.Viol, "known": o.Known,
+	}
+	b, _ := json.MarshalIndent(st, "", " ")
+	os.WriteFile(filepath.Join(o.dir, "stats.json"), b, 0o644)
+}
+
 func (o *Out) close() {
 	o.w.Flush()
 	o.f.Close()
